@@ -351,6 +351,10 @@ def gen_breaks(env, k=None, cover=True, lo=None, hi=None):
     if k is None:
         k = rng.choice([1, 1, 2, 2, 3, 4])
     inner = sorted({env.rand_point() for _ in range(k - 1)})
+    if rng.random() < 0.2:
+        # boundaries off the 6h raster: half hours and odd seconds (the JSON format keeps seconds)
+        off = rng.choice([pd.Timedelta(minutes=30), pd.Timedelta(seconds=30), pd.Timedelta(minutes=45, seconds=15)])
+        inner = sorted({p + off for p in inner})
     inner = [p for p in inner if lo < p < hi]
     pts = [lo] + inner + [hi]
     if not cover and len(pts) > 2 and rng.random() < 0.5:
@@ -541,6 +545,10 @@ def gen_window(env, p_none=0.6):
         s, e = env.U1 + 4 * H6, env.U1 + 8 * H6
     if s is not None and e is not None and not s < e:
         e = s + 2 * H6
+    if env.window_kind != "date" and rng.random() < 0.15:
+        off = rng.choice([pd.Timedelta(minutes=30), pd.Timedelta(seconds=30)])
+        s = None if s is None else s + off
+        e = None if e is None else e + off
     k = env.window_kind
     if k == "date":
         s = None if s is None else s.normalize()
